@@ -781,7 +781,7 @@ _SX = (" Recorded executions are additionally re-run through the watch-faithful 
        "(Trace_CdclW.tla, re-using the model's actions): clauses, propagation, learnt clauses, backjumps, restarts and the result are "
        "computed by the model and compared with the code (reproduced exactly on the unchanged tree), and TLC evaluates the model's "
        "invariants along these real executions; a divergence is recorded in the evidence as a conformance finding, not reported as a violation.")
-for _p in ("C01", "C02", "C03", "C05", "C07", "C08", "C14", "C15"):
+for _p in ("C01", "C02", "C03", "C05", "C07", "C08", "C13", "C14", "C15"):
     META[_p]["text"] += _SX
 META["C01"]["text"] += " Step rules: no clause is falsified when the solver moves on to a decision; every clause the rules demand for an installed solvable is in the database (requirements, constrains pairs, locks, exclusions, pairwise at-most-one through the helper variables)."
 META["C02"]["text"] += " Step rules from LazyCdcl!TrailConsistent: levels never decrease along the trail, a decision opens the next level, an implied literal is not assigned below its antecedents; encoding completeness counts (a verdict is only as good as the clause database)."
@@ -792,3 +792,4 @@ META["C15"]["text"] += " On every returned solution TLC requires AtMostOne!Excl 
 META["C17"]["text"] += " The C++ driver keeps ONE result vector (and a second handle on its buffer) across all solves, so a solve has to replace what an earlier one left behind; the drivers also run under UndefinedBehaviorSanitizer."
 META["C18"]["text"] += " Unions of one to four members (the three representations of the small vector behind a union) are interned through iterators with and without an exact size."
 META["C20"]["text"] += " Real solves over packages with 18-45 candidates and a favored candidate are validated by TLC against Universe!Sorted (the sorted list as the solver receives it; rule C07_ClauseCandidateOrder)."
+META["C13"]["text"] += " The replay follows whole histories: several solves on one solver, the model keeping what the cache keeps (LazyCdclW!SolveAgain)."
